@@ -1628,6 +1628,79 @@ def run_resolve_case(rng, tmp):
     return bad, log
 
 
+def run_resolve_pair(rng, tmp):
+    """Two DemoStorage instances alive in one process (a multi-database commit), their two-phase commits
+    interleaved in a random order: each tpc_vote reports exactly the oids resolved by stores made through
+    THAT storage -- nothing another storage resolved, nothing lost because another storage began."""
+    from ZODB.tests.ConflictResolution import PCounter
+    FAKE.queue = []
+
+    def pc(v):
+        o = PCounter()
+        o._value = v
+        return zodb_pickle(o)
+    T = lambda k: real_tid(UNIT * k)  # noqa: E731
+    demos, log = {}, []
+    bad = None
+    try:
+        for name in 'AB':
+            base = MappingStorage('pair-base-' + name)
+            commit(base, u64(T(1)), [])
+            t = TransactionMetaData()
+            base.tpc_begin(t, T(2))
+            base.store(p64(1), z64, pc(0), '', t)
+            base.tpc_vote(t)
+            base.tpc_finish(t)
+            d = DemoStorage(base=base, changes=MappingStorage('pair-ch-' + name))
+            t = TransactionMetaData()
+            d.tpc_begin(t, T(3))
+            d.store(p64(1), T(2), pc(1), '', t)                 # first writer: current revision in the changes
+            d.tpc_vote(t)
+            d.tpc_finish(t)
+            demos[name] = d
+        res = {'A': rng.random() < 0.8, 'B': rng.random() < 0.5}
+        if not (res['A'] or res['B']):
+            res['A'] = True
+        seqs = {n: ['begin', 'store', 'vote', 'finish'] for n in 'AB'}
+        order = []
+        while seqs['A'] or seqs['B']:
+            n = rng.choice([x for x in 'AB' if seqs[x]])
+            order.append((n, seqs[n].pop(0)))
+        txn = TransactionMetaData()             # one transaction object for both, as in a multi-database commit
+        votes = {}
+        for n, step in order:
+            d = demos[n]
+            log.append(n + ':' + step)
+            if step == 'begin':
+                d.tpc_begin(txn, T(4))
+            elif step == 'store':
+                if res[n]:
+                    d.store(p64(1), T(2), pc(5), '', txn)       # stale base serial: resolved
+                else:
+                    d.store(p64(9), z64, pc(1), '', txn)
+            elif step == 'vote':
+                votes[n] = set(d.tpc_vote(txn) or ())
+            else:
+                d.tpc_finish(txn)
+        for n in 'AB':
+            want = {p64(1)} if res[n] else set()
+            if votes[n] != want:
+                bad = ('storage %s: tpc_vote returned %s, its stores resolved %s (order %s; the other storage '
+                       'resolved %s)' % (n, sorted(u64(o) for o in votes[n]), sorted(u64(o) for o in want),
+                                         ' '.join(log), 'oid 1' if res['AB'.replace(n, '')] else 'nothing'))
+                break
+    except Exception as e:
+        import traceback
+        bad = bad or 'resolve pair scenario raised %s: %s' % (type(e).__name__, traceback.format_exc()[-500:])
+    finally:
+        for d in demos.values():
+            try:
+                d.close()
+            except Exception:
+                pass
+    return bad, log
+
+
 # ---------------------------------------------------------------- close(): who owns what
 def is_open(st, oid=1):
     try:
@@ -1914,6 +1987,11 @@ def main(argv=None):
     elif not ck.replay_path:
         res_seeds = [ck.rng.randrange(10 ** 12) for _ in range(40 if not ck.thorough else 800)]
     for rs in res_seeds:
+        bad, rlog = run_resolve_pair(_random.Random(rs), ck.tmp)
+        ck.count('resolve-pair:cases')
+        ck.case(['resolve-pair', rlog], True, None)
+        if bad:
+            ck.violation('C16:resolved-conflict', bad, dict(resolve_seed=rs, log=rlog))
         bad, rlog = run_resolve_case(_random.Random(rs), ck.tmp)
         ck.count('resolve:cases')
         ck.case(['resolve', rlog], True, None)
